@@ -217,7 +217,8 @@ def subset_mismatch(exp, obs, path=""):
     if isinstance(exp, dict):
         if not isinstance(obs, dict):
             return (path, exp, obs)
-        for k, v in exp.items():
+        for k in sorted(exp):
+            v = exp[k]
             if k not in obs:
                 return (path + "/" + k, v, "<missing>")
             r = subset_mismatch(v, obs[k], path + "/" + k)
